@@ -77,6 +77,11 @@ class C16(Check):
 
     def generate(self, rng, tier, shard, nshards):
         n = 200 if tier == 'quick' else 10 ** 7
+        if tier == 'thorough' and shard == 0:
+            # one stream of 2**32 bytes and one just beyond (length fields of 32 bits: the gzip trailer holds the size modulo
+            # 2**32): about a minute each, thorough tier only, streamed through counting observers
+            yield {'huge': (1 << 32), 'codec': 'gzip', 'watchdog_s': 400}
+            yield {'huge': (1 << 32) + (1 << 20) + 5, 'codec': 'zstd', 'watchdog_s': 400}
         big = 3 * 131072 + 17 if tier == 'quick' else 1 << 20
         for k in range(n):
             codec = ('gzip', 'zstd')[k % 2]
@@ -182,8 +187,68 @@ class C16(Check):
             ch = chunking.insert_empties_everywhere(ch, b'')
         return ch
 
+    def _eval_huge(self, case, out):
+        import zlib
+        codec, total = case['codec'], case['huge']
+        out.tags += [codec, 'stream-of-2**32-bytes-or-more']
+        out.nontrivial = True
+        block = bytes(1 << 20)
+        nfull, tail = divmod(total, len(block))
+
+        def chunks():
+            for _ in range(nfull):
+                yield block
+            if tail:
+                yield block[:tail]
+        comp = []
+        c = Snap()
+        c.on_next = comp.append
+        subscribe(rx.from_(chunks()).pipe(CODECS[codec][0]()), c)
+        if c.err is not None or not c.done:
+            return out.fail('compress-failed', error=repr(c.err), done=c.done, input_bytes=total)
+        out.observed['compressed_bytes'] += sum(len(x) for x in comp)
+        # standalone validity, streamed
+        if codec == 'gzip':
+            d = zlib.decompressobj(wbits=31)
+            n = 0
+            for x in comp:
+                data = d.decompress(x, 1 << 24)
+                n += len(data)
+                while d.unconsumed_tail:
+                    data = d.decompress(d.unconsumed_tail, 1 << 24)
+                    n += len(data)
+            n += len(d.flush())
+            if not d.eof or d.unused_data or n != total:
+                return out.fail('not-a-standalone-stream', eof=d.eof, decoded=n, want=total)
+        else:
+            rd = zstandard.ZstdDecompressor().stream_reader(io.BytesIO(b''.join(comp)))
+            n = 0
+            while True:
+                data = rd.read(1 << 24)
+                if not data:
+                    break
+                n += len(data)
+            if n != total:
+                return out.fail('reference-decoder-content-differs', got_len=n, want_len=total)
+        out.observed['reference_decodes'] += 1
+        count = [0, True]
+        dsn = Snap()
+
+        def on_next(x):
+            count[0] += len(x)
+            if x.count(0) != len(x):
+                count[1] = False
+        dsn.on_next = on_next
+        subscribe(rx.from_(comp).pipe(CODECS[codec][1]()), dsn)
+        out.observed['rechunkings_checked'] += 1
+        if dsn.err is not None or not dsn.done or count[0] != total or not count[1]:
+            return out.fail('decompress-content-differs', error=repr(dsn.err), done=dsn.done, got_len=count[0], want_len=total, all_zero=count[1])
+        return out
+
     def evaluate(self, case):
         out = Outcome()
+        if case.get('huge'):
+            return self._eval_huge(case, out)
         codec = case['codec']
         # operator objects are built once per codec and re-subscribed for every stream / truncation: the
         # (de)compressor object must belong to the subscription, not to the operator
